@@ -180,9 +180,12 @@ def check_query(t, scope=None, route='query-string'):
             else:
                 # the decompiler (property C03) stands between the source and ast2src on this route: judge ast2src against the tree it was given
                 gen = eval('(p for p in P if p.%s == (%s))' % (col, text), g)
+                from pony.orm.decompiling import decompile
                 try:
-                    from pony.orm.decompiling import decompile
                     dec = decompile(gen)[0].generators[0].ifs[0]
+                except Exception as e:
+                    return {'skip': 'the decompiler raises %s (C03), ast2src is not reached' % type(e).__name__}
+                try:
                     sub = copy.deepcopy(dec.comparators[0] if isinstance(dec, ast.Compare) else dec.test.comparators[0])
                     gg = dict(scope); gg['__builtins__'] = {'len': len, 'abs': abs, 'str': str}
                     want_dec = eval(compile(ast.fix_missing_locations(ast.Expression(body=sub)), '<decompiled>', 'eval'), gg)
@@ -197,6 +200,8 @@ def check_query(t, scope=None, route='query-string'):
             name = type(e).__name__
             if name in ('DecompileError', 'NotImplementedError'):
                 return {'skip': 'refused: %s' % name}
+            if name == 'ExprEvalError' and G.has_kind(t, {'Lambda'}):
+                return {'skip': 'a lambda keeps the expression from being external as a whole; its parts are evaluated eagerly'}
             if name == 'TranslationError' or (name == 'TypeError' and 'ncomparable' in str(e)): return {'skip': 'translator refuses: %s' % str(e)[:60]}
             return {'kind': 'query-raises', 'exc': name, 'msg': str(e)[:160], 'text': text, 'want': want}
     if not vals:
